@@ -74,7 +74,9 @@ def _run_chunk(modname, prop, tier, base_seed, indices, recheck_every):
     """Execute a chunk of cases in a worker process. Returns a list of
     per-case result dicts (small, picklable)."""
     faulthandler.enable()
-    faulthandler.dump_traceback_later(600, exit=True)
+    # (a chunk takes seconds; a worker that is stuck - e.g. code under test blocking on a real lock the simulator
+    #  does not control - is dumped and killed, and the batch reports a HARNESS-ERROR)
+    faulthandler.dump_traceback_later(240 if tier == "quick" else 600, exit=True)
     try:
         chk = _load_check(modname)
         out = []
